@@ -50,6 +50,8 @@ func answerAsk(d *Driver, kind string, q M) any {
 		}
 		err = c.CheckSignature(x509.SignatureAlgorithm(num(q["alg"])), unhx(q["msg"].(string)), unhx(q["sig"].(string)))
 		return M{"bool": err == nil}
+	case "tpmHashes":
+		return M{"hashes": tpmHashTable()}
 	case "tpmCertInfo":
 		ad, err := tpm2.DecodeAttestationData(unhx(q["raw"].(string)))
 		if err != nil {
